@@ -15,6 +15,11 @@ def processCase (mode : String) (pid : String) (header : String) (lines : List S
   if mode == "brk09" then
     IO.println (processBrk header lines (pid == "witness"))
     return ()
+  if mode == "life09" then
+    -- C05's clause "broker subscriptions never keep it alive", on the subscribers of the broker family
+    let v := subscriberLifetimes header lines
+    IO.println (s!"{header} :: " ++ (if v.isEmpty then "monitor[C05]=ok " else v))
+    return ()
   if mode == "sys16" then
     IO.println (processSys Wiring.current header lines (pid == "witness"))
     return ()
